@@ -118,7 +118,10 @@ def emit_case(c) -> str:
                 f"{clist([_step_lit(st) for st in c['h']])})")
     if c["kind"] == "map":
         noev = _model_ct(c["cache"])[0] in (0, 2)
-        return ("(CMap {| Run_C09Map.m_req := " + _m_req(c["req"]) + "; Run_C09Map.m_noevict := " + cbool(noev) + " |})")
+        sec = c.get("second")
+        sec_lit = "None" if sec is None else f"(Some ({_m_req(_second_req(c))}, {cbool(sec['replace'] is not None)}))"
+        return ("(CMap {| Run_C09Map.m_req := " + _m_req(c["req"]) + "; Run_C09Map.m_second := " + sec_lit
+                + "; Run_C09Map.m_noevict := " + cbool(noev) + " |})")
     raise ValueError(c["kind"])
 
 
@@ -214,25 +217,61 @@ def _run_hist(c):
         return out
 
 
+def _second_req(c):
+    """The request of the second map run: the same one, or the one with function j replaced (other name => other body)."""
+    sec = c["second"]
+    req2 = copy.deepcopy(c["req"])
+    if sec["replace"] is not None:
+        j = sec["replace"]
+        req2["funcs"][j]["name"] = "g" + req2["funcs"][j]["name"]
+    return req2
+
+
 def _run_map(c):
     req = c["req"]
+    sec = c.get("second")
+    req2 = _second_req(c) if sec is not None else None
+    noev = _model_ct(c["cache"])[0] in (0, 2)
     sink = io.StringIO()
     with contextlib.redirect_stdout(sink):
-        def one(**pkw):
+        def twin(**pkw):
+            """[(result obs | Err, executions)] for the one or two map runs on ONE pipeline object."""
             log = mapsym.CallLog()
+            out = []
             try:
                 p = mapsym.build_pipeline(req, log, **pkw)
-                r = p.map(mapsym.map_inputs(req), internal_shapes=mapsym.internal_arg(req), storage="dict", parallel=False)
-                return ["ok", mapsym.results_obs(req, r)], len(log.read())
             except Exception as e:  # noqa: BLE001
-                return Err(e), -1
+                return [(Err(e), -1)] * (2 if sec is not None else 1)
 
-        ru, nu = one()
+            def run(rq):
+                n0 = len(log.read())
+                try:
+                    r = p.map(mapsym.map_inputs(rq), internal_shapes=mapsym.internal_arg(rq), storage="dict", parallel=False)
+                    return ["ok", mapsym.results_obs(rq, r)], len(log.read()) - n0
+                except Exception as e:  # noqa: BLE001
+                    return Err(e), -1
+
+            out.append(run(req))
+            if sec is not None:
+                if sec["replace"] is not None:
+                    j = sec["replace"]
+                    try:
+                        new = mapsym.build_pipeline({"funcs": [req2["funcs"][j]]}, log).functions[0]
+                        p.replace(new)
+                    except Exception as e:  # noqa: BLE001
+                        out.append((Err(e), -1))
+                        return out
+                out.append(run(req2))
+            return out
+
+        us = twin()
         with _CacheDir(c["cache"]) as (ct, ckw):
-            rc, nc = one(cache_type=ct, cache_kwargs=ckw)
-    u = ru if isinstance(ru, Err) else ["ok", ru[1], nu]
-    noev = _model_ct(c["cache"])[0] in (0, 2)
-    return [u, rc, nc if (noev and nc >= 0) else -1]
+            cs = twin(cache_type=ct, cache_kwargs=ckw)
+    obs = []
+    for (ru, nu), (rc, nc) in zip(us, cs):
+        u = ru if isinstance(ru, Err) else ["ok", ru[1], nu]
+        obs.append([u, rc, nc if (noev and nc >= 0 and not isinstance(ru, Err)) else -1])
+    return obs
 
 
 def run_impl(c):
@@ -424,14 +463,18 @@ def generate(rng, tier, mult):
                     cases.append({"kind": "hist", "p": pd, "cache": cache, "h": h})
     for _ in range((50 if quick else 1200) * mult):
         cache = rng.choice(_cache_choices(rng, tier))
-        cases.append({"kind": "map", "req": _gen_map(rng), "cache": cache})
+        req = _gen_map(rng)
+        r = rng.random()
+        second = None if r < 0.35 else {"replace": None if r < 0.65 else rng.randrange(len(req["funcs"]))}
+        cases.append({"kind": "map", "req": req, "second": second, "cache": cache})
     return cases
 
 
 def nontrivial_key(c):
     if c["kind"] == "map":
         rep = any(isinstance(v, dict) and len(set(v["d"])) < len(v["d"]) for _, v in c["req"]["inputs"])
-        return ("map", json.dumps(c["req"], sort_keys=True), json.dumps(c["cache"], sort_keys=True)) if rep else None
+        return ("map", json.dumps(c["req"], sort_keys=True), json.dumps(c.get("second")),
+                json.dumps(c["cache"], sort_keys=True)) if rep else None
     ncalls = sum(1 for st in c["h"] if st["k"] == "call")
     if ncalls < 2 or not any(f.get("cached") for f in c["p"]["funcs"]):
         return None
@@ -441,6 +484,9 @@ def nontrivial_key(c):
 
 def distribution(c):
     d = {"kind": c["kind"], "cache": c["cache"]["type"] + ("+max" if c["cache"].get("kw", {}).get("max_size") else "")}
+    if c["kind"] == "map":
+        sec = c.get("second")
+        d["map_runs"] = "1" if sec is None else ("2 same" if sec["replace"] is None else "2 replace between")
     if c["kind"] == "hist":
         d["len"] = len(c["h"])
         d["ncached"] = sum(1 for f in c["p"]["funcs"] if f.get("cached"))
@@ -448,6 +494,8 @@ def distribution(c):
             d["step_" + st["k"]] = True
         d["cut"] = any(st["k"] == "call" and any(k in pipegen.outputs_of(c["p"]) for k, _ in st["kw"]) for st in c["h"])
         d["full"] = any(st["k"] == "call" and st["full"] for st in c["h"])
+        calls = [json.dumps([st["o"], st["kw"], st["full"]]) for st in c["h"] if st["k"] == "call"]
+        d["repeated_equal_call"] = len(set(calls)) < len(calls)
     return d
 
 
